@@ -41,7 +41,8 @@ type c15Case struct {
 
 var c15Contents = []string{"", " plain words", " let x = 1;", " }", " if (", " { a: 1 }", " 'single' \"double\" `tick`", " // nested", " /* block */", "trailing   ", "   leading", " ünï 中", " ; ) ] ,", " return", "\ttab", " \\ backslash \\n", " function f() {"}
 
-var markerRE = regexp.MustCompile(`//#(\d+)#[^\n]*`)
+// a comment: `//`, an optional prefix without `#` (further slashes, `/*`, white space ...), the marker, the content
+var markerRE = regexp.MustCompile(`//[^\n#]*#(\d+)#[^\n]*`)
 
 func c15Check(c c15Case, rec *evid.Recorder) *Fail {
 	rec.Eval()
@@ -201,6 +202,9 @@ func c15Check(c c15Case, rec *evid.Recorder) *Fail {
 	return nil
 }
 
+// c15Prefixes: what stands between `//` and the marker (mostly nothing).
+var c15Prefixes = []string{"", "", "", "", "", "/", "//", "///////", " ", "   ", "\t", "/*", "*", "!", "-", " / "}
+
 func markerInText(s string) bool { return regexp.MustCompile(`#\d+#`).MatchString(s) }
 
 func c15Gen(t *rapid.T, rec *evid.Recorder) c15Case {
@@ -228,8 +232,8 @@ func c15Gen(t *rapid.T, rec *evid.Recorder) c15Case {
 		hasComment := false
 		if !first && r.Intn(4, "trailing") == 0 {
 			marker++
-			t1 := fmt.Sprintf("#%d#%s", marker, c15Contents[r.Intn(len(c15Contents), "content")])
-			t2 := fmt.Sprintf("#%d#%s", marker, c15Contents[r.Intn(len(c15Contents), "content2")])
+			t1 := fmt.Sprintf("%s#%d#%s", c15Prefixes[r.Intn(len(c15Prefixes), "prefix")], marker, c15Contents[r.Intn(len(c15Contents), "content")])
+			t2 := fmt.Sprintf("%s#%d#%s", c15Prefixes[r.Intn(len(c15Prefixes), "prefix2")], marker, c15Contents[r.Intn(len(c15Contents), "content2")])
 			a.WriteString(" //" + t1)
 			b.WriteString(" //" + t2)
 			c.Comments = append(c.Comments, c15Comment{Marker: marker, Text: t1, Text2: t2, Trailing: true, Next: next, Depth: depth})
@@ -253,8 +257,8 @@ func c15Gen(t *rapid.T, rec *evid.Recorder) c15Case {
 				nl()
 			}
 			marker++
-			t1 := fmt.Sprintf("#%d#%s", marker, c15Contents[r.Intn(len(c15Contents), "content")])
-			t2 := fmt.Sprintf("#%d#%s", marker, c15Contents[r.Intn(len(c15Contents), "content2")])
+			t1 := fmt.Sprintf("%s#%d#%s", c15Prefixes[r.Intn(len(c15Prefixes), "prefix")], marker, c15Contents[r.Intn(len(c15Contents), "content")])
+			t2 := fmt.Sprintf("%s#%d#%s", c15Prefixes[r.Intn(len(c15Prefixes), "prefix2")], marker, c15Contents[r.Intn(len(c15Contents), "content2")])
 			ind := strings.Repeat(" ", r.Intn(5, "indent"))
 			a.WriteString(ind + "//" + t1 + "\n")
 			b.WriteString(ind + "//" + t2 + "\n")
